@@ -18,6 +18,7 @@
 package validator
 
 import (
+	"io"
 	"net/http"
 
 	"fmt"
@@ -157,7 +158,7 @@ func (v *Validator) Handle(ctx *context.Context) string {
 		}
 	}
 	if v.signer != nil {
-		if err := v.signer.Verify(req.Std()); err != nil {
+		if err := v.signer.Verify(v.signedRequest(req)); err != nil {
 			prepareErrorResponse(http.StatusUnauthorized, "signature validator: ", err)
 			return resultInvalid
 		}
@@ -176,6 +177,28 @@ func (v *Validator) Handle(ctx *context.Context) string {
 	}
 
 	return ""
+}
+
+// signedRequest returns the request whose signature is to be verified: a
+// shallow copy of the underlying http.Request with the payload of req as
+// its Body. The Body of the underlying request must not be used, it was
+// consumed by FetchPayload, and the body the signature has to match is
+// the payload, which is what will be forwarded.
+func (v *Validator) signedRequest(req *httpprot.Request) *http.Request {
+	if req.IsStream() && !v.spec.Signature.ExcludeBody {
+		// the signer reads the whole body, keep it for the backend. If the
+		// read fails, the signature of the partial body does not match.
+		stream := req.GetPayload()
+		data, _ := io.ReadAll(stream)
+		if c, ok := stream.(io.Closer); ok {
+			c.Close()
+		}
+		req.SetPayload(data)
+	}
+
+	stdr := req.Std().WithContext(req.Context())
+	stdr.Body = io.NopCloser(req.GetPayload())
+	return stdr
 }
 
 // Status returns status.
